@@ -119,6 +119,7 @@ Definition touched (s : state) (l : tstep) : option nat :=
     match eng s with
     | Some (ERet _) => match resp s with q0 :: _ => match_response s q0 | [] => None end
     | Some (EQ i _) => Some i
+    | Some (EEmpty _) => hd_error (empties s)
     | _ => None
     end
   | _ => None
